@@ -1,5 +1,6 @@
 (* C08 — long-running methods return futures typed by google.longrunning.operation_info.
    Only statements, closed by [exact], each followed by Print Assumptions. *)
+From Coq Require Import Permutation.
 From GV Require Import Base.Str Model.Lro Proofs.Lro.
 
 (* the three-way table of the property: raw Operation / rejected / future typed by the two resolved names *)
@@ -98,6 +99,12 @@ Theorem C08_lro_lookup_total : forall files key,
   known files key = true <-> exists f, In f files /\ In key (f_messages f).
 Proof. exact lro_lookup_total. Qed.
 Print Assumptions C08_lro_lookup_total.
+
+(* ... in whatever order the request lists the files ... *)
+Theorem C08_decide_order_independent : forall files files' pkg m,
+  Permutation files files' -> decide files pkg m = decide files' pkg m.
+Proof. exact decide_order_independent. Qed.
+Print Assumptions C08_decide_order_independent.
 
 (* ... whatever the service's file imports *)
 Theorem C08_lro_lookup_ignores_imports : forall files key (service_file f : file),
